@@ -84,11 +84,26 @@ def r04_1(ctx) -> None:
         fn = pu.methods.get(m)
         if fn is None:
             raise AnalysisError(f"ECDH1PUAlgModel.{m} vanished")
-        cfg = cfg_of(fn)
-        gates = [cfg.node_of(s.node) for s in eng.cg.calls_in(fn) if ce in s.callees and isinstance(s.node, ast.Call) and s.node.args and norm(s.node.args[0]) == fn.pos_params[1]]
-        gates = [g for g in gates if g is not None]
-        others = [s for s in eng.cg.calls_in(fn) if isinstance(s.node, ast.Call) and s.callees and ce not in s.callees]
-        ok = bool(gates) and all(cfg.must_pass(cfg.entry, cfg.node_of(s.node), gates) for s in others if cfg.node_of(s.node) is not None)
+
+        def gated(f_, encp, depth=0) -> bool:
+            """every repo call f_ makes is preceded by _check_enc(<enc>) - in f_ itself, or first thing in the one callee that is handed <enc>"""
+            cfg_ = cfg_of(f_)
+            gates = [cfg_.node_of(s.node) for s in eng.cg.calls_in(f_) if ce in s.callees and isinstance(s.node, ast.Call) and s.node.args and norm(s.node.args[0]) == encp]
+            gates = [g for g in gates if g is not None]
+            others = [s for s in eng.cg.calls_in(f_) if isinstance(s.node, ast.Call) and s.callees and ce not in s.callees and cfg_.node_of(s.node) is not None]
+            if not gates and not others:
+                return False
+            for s in others:
+                if gates and cfg_.must_pass(cfg_.entry, cfg_.node_of(s.node), gates):
+                    continue
+                if depth >= 2:
+                    return False
+                for c_ in s.callees:
+                    ps = [p_ for p_ in c_.params if (a_ := eng.cg.arg_for_param(s, c_, p_)) is not None and isinstance(a_, ast.Name) and a_.id == encp]
+                    if len(ps) != 1 or not gated(c_, ps[0], depth + 1):
+                        return False
+            return True
+        ok = gated(fn, fn.pos_params[1])
         ctx.check(ok, "R04.1", fn, fn.node, f"{fn.short}", "the ECDH-1PU encrypt side derives a key before refusing a forbidden content encryption", "_check_enc(enc) first", construct=f"_check_enc in {m}")
 
 
@@ -265,6 +280,11 @@ def r04_3(ctx) -> None:
             for k, v in zip(n.keys, n.values):
                 if k is not None and isinstance(k, ast.Constant):
                     slots.setdefault(k.value, set()).add(norm(v))
+    # ... also where the slots are stored one by one (`obj.base64_segments['iv'] = iv_segment`)
+    for n in fn_nodes(ext):
+        if isinstance(n, ast.Assign) and len(n.targets) == 1 and isinstance(n.targets[0], ast.Subscript) and isinstance(n.targets[0].slice, ast.Constant) \
+                and norm(n.targets[0].value).endswith(("base64_segments", "bytes_segments")):
+            slots.setdefault(n.targets[0].slice.value, set()).add(norm(n.value))
     okm = slots.get("aad") == {T[0]} and slots.get("iv") == {T[2], f"urlsafe_b64decode({T[2]})"} and \
         slots.get("ciphertext") == {T[3], f"urlsafe_b64decode({T[3]})"} and slots.get("tag") == {T[4], f"urlsafe_b64decode({T[4]})"}
     eks = [n for n in fn_nodes(ext) if isinstance(n, ast.Assign) and norm(n.targets[0]).endswith(".encrypted_key") and norm(n.value) == f"urlsafe_b64decode({T[1]})"]
@@ -419,6 +439,11 @@ def r04_7(ctx) -> None:
             for k, v in zip(n.args[0].keys, n.args[0].values):
                 if isinstance(k, ast.Constant):
                     tgt[k.value] = simplify(substitute(Tm.of(xc, v), vp, prod))
+        elif isinstance(n, ast.Assign) and len(n.targets) == 1 and isinstance(n.targets[0], ast.Subscript) and isinstance(n.targets[0].slice, ast.Constant):
+            rcv = norm(n.targets[0].value)
+            tgt = b64 if rcv.endswith(".base64_segments") else (raw if rcv.endswith(".bytes_segments") else None)
+            if tgt is not None:
+                tgt[n.targets[0].slice.value] = simplify(substitute(Tm.of(xc, n.value), vp, prod))
     decs = [n for n in fn_nodes(pd) if isinstance(n, ast.Call) and isinstance(n.func, ast.Attribute) and n.func.attr == "decrypt" and len(n.args) == 5]
     if len(decs) != 1:
         raise AnalysisError("R04.7: enc.decrypt call in _perform_decrypt not found")
